@@ -1,5 +1,5 @@
 CONSTANTS MaxLen = 3 MaxNan = 1 Vals <- MCVals
 INIT Init
 NEXT Next
-CONSTRAINT Dump
+INVARIANT Dump
 CHECK_DEADLOCK FALSE
